@@ -31,6 +31,8 @@ POOL = [
     ('Lbig', 'L', [600 - 800j]),
     ('Q', 'Q', [2 + 3j, 5 + 1j]),
     ('C', 'C', [1 + 2j, 3 + 2j, 4 + 0j]),
+    # a long flat cubic that doubles back on itself: a one-pass quadrature or a shallow subdivision misjudges its length
+    ('Chairpin', 'C', [-110 - 23j, 975 - 11j, 270 - 13j]),
     ('A', 'A', [3 + 1j, 30.0, False, True, 4 + 1j]),
     ('Z0', 'L', [0j]),
 ]
@@ -69,7 +71,7 @@ def build(word, joints):
 
 
 def reference(segs):
-    ls = [s.length() for s in segs]
+    ls = [AB.fresh_copy(s).length() for s in segs]      # fresh objects: nothing an earlier call left on the segments
     tot = sum(ls)
     fr = [l / tot if tot else l for l in ls]
     b = [0.0]
